@@ -65,20 +65,26 @@ Definition same_sconfig (c c' : sysconfig) : Prop := s_sconfig c' = s_sconfig c.
 Section WithNet.
 Variable nf : netfns.
 
+(* any property of the server entry list that ares_sconfig_append preserves holds of what
+   ares_init_by_sysconfig gathers *)
+Section Preserved.
+Variable P : option (list sconf) -> Prop.
+Hypothesis P_append : forall ifs l a u t i l', sconfig_append ifs l a u t i = Ok l' -> P l -> P l'.
+
 Lemma append_entries_inv ifs ign es : forall l l',
-  append_entries nf ifs ign es l = Ok l' -> Forall entry_inv (olist l) -> Forall entry_inv (olist l').
+  append_entries nf ifs ign es l = Ok l' -> P l -> P l'.
 Proof.
   induction es as [|e r IH]; intros l l' H F; cbn [append_entries] in H; [apply Ok_inj in H; subst; exact F|].
   assert (forall s, (do l1 <- sconfig_append ifs l (sc_addr s) (sc_udp s) (sc_tcp s) (sc_iface s);
-                     append_entries nf ifs ign r l1) = Ok l' -> Forall entry_inv (olist l')) as Hstep.
+                     append_entries nf ifs ign r l1) = Ok l' -> P l') as Hstep.
   { intros s Hs. destruct (sconfig_append ifs l (sc_addr s) (sc_udp s) (sc_tcp s) (sc_iface s)) as [l1| |] eqn:E; cbn [bind] in Hs; try discriminate.
-    eapply IH; [exact Hs|]. eapply sconfig_append_inv; eassumption. }
+    eapply IH; [exact Hs|]. eapply P_append; eassumption. }
   destruct (parse_nameserver_uri nf e) as [s| | |k]; try discriminate; [apply (Hstep s); exact H|].
   destruct (parse_nameserver nf e) as [s|st|k]; try discriminate; [apply (Hstep s); exact H|].
   destruct ign; [eapply IH; eassumption|discriminate].
 Qed.
 
-Definition sys_inv (s : sysconfig) : Prop := Forall entry_inv (olist (s_sconfig s)).
+Definition sys_inv (s : sysconfig) : Prop := P (s_sconfig s).
 
 Lemma set_options_loop_sconfig opts : forall cfg cfg', set_options_loop cfg opts = Ok cfg' -> s_sconfig cfg' = s_sconfig cfg.
 Proof.
@@ -86,7 +92,7 @@ Proof.
   destruct (process_option cfg o) as [c1|s|k] eqn:E; try discriminate.
   - rewrite (IH _ _ H). unfold process_option in E.
     destruct (buf_split_str [ch_colon] true false false 2 o) as [kv| |]; cbn [bind] in E; try discriminate.
-    destruct kv; [discriminate|].
+    destruct kv as [|key vr]; [discriminate|]. destruct (option_value vr);
     repeat match goal with H0 : context [if ?b then _ else _] |- _ => destruct b end; try discriminate; apply Ok_inj in E; subst; reflexivity.
   - destruct (s =? ARES_ENOMEM); [discriminate|]. apply (IH _ _ H).
 Qed.
@@ -99,7 +105,10 @@ Proof.
 Qed.
 
 Lemma config_search_sconfig cfg s n cfg' : config_search cfg s n = Ok cfg' -> s_sconfig cfg' = s_sconfig cfg.
-Proof. unfold config_search. destruct (strsplit s s_sep_domains); [|discriminate]. intros H; apply Ok_inj in H; subst; reflexivity. Qed.
+Proof.
+  unfold config_search. destruct s as [|s0 sr]; [intros H; apply Ok_inj in H; subst; reflexivity|].
+  destruct (buf_split_str s_sep_domains false true true 0 (s0 :: sr)) as [[|x l]| |]; intros H; apply Ok_inj in H; subst; reflexivity.
+Qed.
 
 Lemma resolv_line_inv fx ifs cfg l cfg' : parse_resolv_line_gen nf fx ifs cfg l = Ok cfg' -> sys_inv cfg -> sys_inv cfg'.
 Proof.
@@ -152,9 +161,9 @@ Lemma process_file_inv cb : (forall c l c', cb c l = Ok c' -> sys_inv c -> sys_i
   forall f cfg cfg', process_file cb cfg f = Ok cfg' -> sys_inv cfg -> sys_inv cfg'.
 Proof. intros Hcb [content|] cfg cfg' H F; cbn [process_file] in H; [eapply process_lines_inv; eassumption|apply Ok_inj in H; subst; exact F]. Qed.
 
-Lemma read_sysconfig_inv ifs e s : read_sysconfig nf ifs e = Ok s -> sys_inv s.
+Lemma read_sysconfig_inv ifs e s : P None -> read_sysconfig nf ifs e = Ok s -> sys_inv s.
 Proof.
-  unfold read_sysconfig, init_sysconfig_files. intros H.
+  unfold read_sysconfig, init_sysconfig_files. intros P0 H.
   destruct (process_file (parse_resolv_line nf ifs) sys_init (f_resolv (e_files e))) as [c1| |] eqn:E1; cbn [bind] in H; try discriminate.
   destruct (process_file parse_nsswitch_line c1 (f_nsswitch (e_files e))) as [c2| |] eqn:E2; cbn [bind] in H; try discriminate.
   destruct (process_file parse_svcconf_line c2 (f_netsvc (e_files e))) as [c3| |] eqn:E3; cbn [bind] in H; try discriminate.
@@ -164,23 +173,48 @@ Proof.
     eapply process_file_inv; [|exact E3|]. { intros; eapply db_line_inv; eassumption. }
     eapply process_file_inv; [|exact E2|]. { intros; eapply db_line_inv; eassumption. }
     eapply process_file_inv; [|exact E1|]. { intros; eapply resolv_line_inv; eassumption. }
-    constructor. }
+    exact P0. }
   unfold init_by_environment in H. unfold sys_inv in *.
   destruct (e_localdomain e) as [d|].
   - destruct (config_search c4 d 1) as [c5| |] eqn:E5; cbn [bind] in H; try discriminate.
     pose proof (config_search_sconfig _ _ _ _ E5) as S5.
     destruct (e_res_options e); [|apply Ok_inj in H; subst; rewrite S5; exact I4].
-    unfold set_options in H. destruct b; [discriminate|]. rewrite (set_options_loop_sconfig _ _ _ H), S5. exact I4.
+    unfold set_options in H. destruct b; [apply Ok_inj in H; subst; rewrite S5; exact I4|]. rewrite (set_options_loop_sconfig _ _ _ H), S5. exact I4.
   - cbn [bind] in H. destruct (e_res_options e); [|apply Ok_inj in H; subst; exact I4].
-    unfold set_options in H. destruct b; [discriminate|]. rewrite (set_options_loop_sconfig _ _ _ H). exact I4.
+    unfold set_options in H. destruct b; [apply Ok_inj in H; subst; exact I4|]. rewrite (set_options_loop_sconfig _ _ _ H). exact I4.
 Qed.
+
+End Preserved.
+
+(* a list that exists holds at least one entry (fixes/C15-no-empty-server-list.patch) *)
+Definition list_nonempty (l : option (list sconf)) : Prop := l <> Some [].
+
+Lemma sconfig_append_nonempty ifs l a u t i l' : sconfig_append ifs l a u t i = Ok l' -> list_nonempty l -> list_nonempty l'.
+Proof.
+  unfold sconfig_append, list_nonempty. destruct (addr_blacklisted a); [intros H; apply Ok_inj in H; subst; auto|].
+  destruct (addr_is_linklocal a).
+  - destruct i; [intros H; apply Ok_inj in H; subst; auto|].
+    destruct (sconfig_linklocal ifs (n :: i)) as [[[nm sc]|]| |]; cbn [bind]; try discriminate; intros H F; apply Ok_inj in H; subst; auto.
+    intros E. inversion E as [E']. apply app_eq_nil in E' as [_ E']. discriminate.
+  - intros H F. apply Ok_inj in H. subst. intros E. inversion E as [E']. apply app_eq_nil in E' as [_ E']. discriminate.
+Qed.
+
+Lemma sconfig_append_entry_inv ifs l a u t i l' :
+  sconfig_append ifs l a u t i = Ok l' -> Forall entry_inv (olist l) -> Forall entry_inv (olist l').
+Proof. apply sconfig_append_inv. Qed.
+
+Lemma read_sysconfig_nonempty ifs e s : read_sysconfig nf ifs e = Ok s -> s_sconfig s <> Some [].
+Proof. intros H. apply (read_sysconfig_inv list_nonempty sconfig_append_nonempty ifs e s); [discriminate|exact H]. Qed.
+
+Lemma read_sysconfig_entry_inv ifs e s : read_sysconfig nf ifs e = Ok s -> Forall entry_inv (olist (s_sconfig s)).
+Proof. intros H. apply (read_sysconfig_inv (fun l => Forall entry_inv (olist l)) sconfig_append_entry_inv ifs e s); [constructor|exact H]. Qed.
 
 (* every channel ares_init_options returns *)
 Theorem init_options_no_stray e o m c : init_options nf e o m = Ok c -> Forall no_stray_iface (c_servers c).
 Proof.
   unfold init_options. intros H.
   destruct (init_by_options o m) as [c0| |] eqn:E0; cbn [bind] in H; try discriminate.
-  destruct (init_by_sysconfig nf e c0) as [c1| |] eqn:E1; cbn [bind] in H; try discriminate.
+  destruct (init_by_sysconfig nf e (chan_set_ifs c0 (e_defifs e))) as [c1| |] eqn:E1; cbn [bind] in H; try discriminate.
   destruct (init_by_defaults e c1) as [c2| |] eqn:E2; cbn [bind] in H; try discriminate.
   apply Ok_inj in H. subst c. cbn [c_servers].
   assert (Forall no_stray_iface (c_servers c0)) as F0.
@@ -189,9 +223,9 @@ Proof.
     cbn [snd]. apply servers_update_inv; [constructor|].
     apply Forall_forall. intros x Hx. apply in_map_iff in Hx as (b & <- & _). unfold entry_inv. cbn. auto. }
   assert (Forall no_stray_iface (c_servers c1)) as F1.
-  { unfold init_by_sysconfig in E1. destruct (read_sysconfig nf (c_ifs c0) e) as [s|st|k] eqn:Er; try discriminate.
-    - apply Ok_inj in E1. subst c1. unfold sysconfig_apply, sysconfig_apply_gen. cbn [c_servers].
-      pose proof (read_sysconfig_inv _ _ _ Er) as Is. unfold sys_inv in Is.
+  { unfold init_by_sysconfig in E1. destruct (read_sysconfig nf (c_ifs (chan_set_ifs c0 (e_defifs e))) e) as [s|st|k] eqn:Er; try discriminate.
+    - apply Ok_inj in E1. subst c1. unfold sysconfig_apply, sysconfig_apply_gen. cbn [chan_set_ifs c_servers c_optmask c_flags c_udp c_tcp].
+      pose proof (read_sysconfig_entry_inv _ _ _ Er) as Is.
       destruct (s_sconfig s) as [l|]; [|exact F0]. destruct (has (c_optmask c0) B_SERVERS); [exact F0|].
       apply servers_update_inv; [exact F0|exact Is].
     - destruct (st =? NotModelled); [discriminate|]. apply Ok_inj in E1. subst c1. exact F0. }
@@ -210,7 +244,7 @@ Theorem init_options_primary e o m c :
 Proof.
   unfold init_options. intros H.
   destruct (init_by_options o m) as [c0| |] eqn:E0; cbn [bind] in H; try discriminate.
-  destruct (init_by_sysconfig nf e c0) as [c1| |] eqn:E1; cbn [bind] in H; try discriminate.
+  destruct (init_by_sysconfig nf e (chan_set_ifs c0 (e_defifs e))) as [c1| |] eqn:E1; cbn [bind] in H; try discriminate.
   destruct (init_by_defaults e c1) as [c2| |] eqn:E2; cbn [bind] in H; try discriminate.
   apply Ok_inj in H. subst c. cbn [c_optmask c_flags].
   unfold init_by_defaults in E2.
